@@ -18,6 +18,14 @@ as an answer only from the writes that take an index (site / plaquette / path).
   rectangles and strips up to 41 (81) long, with only O(n)-cost facts on the real code: n_k_d formula, the lattice-index
   <-> qubit map is a bijection onto range(n) in the documented order (also against the Lean `flat`), plaquette count
   (Lean `plaqidx`), documented stabilizer weights, exact SPARSE commutation / logical pairing through shared qubits.
+* qv/c07_multi.py — ONE call, SEVERAL indices, on all five lattice Pauli classes: `site(op, i1, i2, ...)` mixing in-lattice
+  sites, site indices outside the lattice (ring, far) and, on the tori, aliases of in-lattice sites (also two aliases of
+  one site, which cancel) in every order of the small sets and at every position of the longer ones, on fresh and on
+  non-identity Paulis: compared with the Lean fold of the single-index model (driver op `sites`; outside = no effect, the
+  others applied; planar / colour: wrong-kind index = IndexError with the prefix applied) and monitored directly (== XOR
+  of the single-index calls == independent statement); plaquette(index) == one site() call on the sites around it in
+  every order for in-lattice / virtual / outside plaquette indices (and == the published stabilizer row); paths with
+  in-lattice / virtual / aliased endpoints in both orders against the Lean `path`, and rebuilt through one site() call.
 The read-back / history layer takes the OPERATOR argument as a class: every documented value 'I','X','Y','Z' of `site`
 (all families) and of the colour code's `plaquette(operator, index)`, each write compared with an independent statement
 of its bsf and read back with operator() at every site.
@@ -29,6 +37,7 @@ quick and 16-30 in the thorough tier; aspect ratios up to 6-7 / 8-15); the cover
 import importlib
 import os
 import sys
+import time
 import traceback
 
 RULE = ('for every accepted size up to the bound: stabilizers, logical_xs, logical_zs, n_k_d, plaquette index list, '
@@ -48,7 +57,11 @@ RULE = ('for every accepted size up to the bound: stabilizers, logical_xs, logic
         'the colour plaquette(operator, index) with an independent statement of the written bsf; sizes far beyond the '
         'bound (colour up to 31/45, squares up to 20/30, strips up to 41/81) with O(n)-cost facts only: n_k_d formula, '
         'site -> qubit map a bijection onto range(n) in the documented order (and equal to the Lean flat), plaquette '
-        'count / index list, stabilizer weights, exact sparse commutation and logical pairing. non-trivial = every case except index-kind '
+        'count / index list, stabilizer weights, exact sparse commutation and logical pairing; ONE site() call with several indices mixing in-lattice, out-of-lattice '
+        'and (tori) aliased indices in every order, on fresh and non-identity Paulis, against the Lean fold of the '
+        'single-index model (op `sites`) and the monitor "== XOR of the single-index calls"; plaquette(index) == one '
+        'site() call on its neighbours in every order (in-lattice, virtual and outside plaquette indices); paths with '
+        'virtual / aliased endpoints in both orders and rebuilt through one site() call. non-trivial = every case except index-kind '
         'predicates and reads that yield I / IndexError')
 
 FAMILIES = ['planar', 'rotatedplanar', 'toric', 'rotatedtoric', 'color666', 'basic']
@@ -62,6 +75,10 @@ def run(ctx):
     mon = c07_access.run(ctx, only=only)
     from qv import c07_large
     c07_large.run(ctx, mon, only=only)   # SIZE well past the exhaustive bound, O(n)-cost structural facts (qv/c07_large.py)
+    from qv import c07_multi
+    t0 = time.time()
+    c07_multi.run(ctx, mon, only=only)   # ONE call with several indices, in-lattice / outside / aliased mixed (qv/c07_multi.py)
+    ctx.extra['c07_multi_s'] = round(time.time() - t0, 1)
     for fam in FAMILIES:
         if only and fam not in only:
             continue
@@ -92,6 +109,9 @@ def search(m):
     meta = m.get('meta') or {}
     if meta.get('tag') == 'ctor' and meta.get('labels'):
         return c07_access.ctor_search(meta)
+    if meta.get('part') == 'multi':
+        from qv import c07_multi
+        return c07_multi.multi_search(m)
     return None
 
 
